@@ -394,6 +394,36 @@ def spec_case(line):
     return ("spec-san", fen + "\t" + text) if api == "pgn" else ("spec-sanparse", fen + "\t" + text)
 
 
+def compare(line, impl_obs, spec_obs):
+    """Verdict for one ucistr case: None = implementation agrees with the spec (or the case is outside the spec's
+    domain), 'A' / 'B' / 'C' = a known leniency of the reader (text that is not SAN is accepted), else a message.
+      A  `=X` after a piece move is ignored            (Nf3=Q read as Nf3)
+      B  the rank hint of a pawn move is ignored       (e3e4 / 3e4 read as e2-e4)
+      C  castling is accepted spelled as a king move   (Kg1 / Ke1g1 read as O-O)"""
+    import re
+    fen, api, text = line.split("\t")
+    res = impl_obs.split(" | ")[0]
+    if spec_obs in ("BADFEN", "NOTLEGAL", "BADCASE"):
+        return None
+    if api == "pgn":
+        if spec_obs == "ILLEGAL":
+            return None if not res.startswith("ok:") else "SAN text produced for an illegal move"
+        return None if res == "ok:" + spec_obs else "SAN text differs from the standard"
+    if res.startswith("ok:") or spec_obs.startswith("ok:"):
+        if res == spec_obs:
+            return None
+        if res.startswith("ok:") and spec_obs == "err":
+            body = re.split(r"[+#!?]", unesc(text))[0]
+            if re.match(r"^[KQRBN][a-h]?[1-8]?x?[a-h][1-8]=[QRBN]$", body):
+                return "A"
+            if re.match(r"^K[a-h]?[1-8]?[cg][18]$", body) and res[3:] in ("e1g1", "e1c1", "e8g8", "e8c8"):
+                return "C"
+            if re.match(r"^[a-h]?[1-8]x?[a-h][1-8](=[QRBN])?$", body):
+                return "B"
+        return "SAN reader and spec disagree"
+    return None if (res == "err" and spec_obs in ("err", "ambiguous")) else "SAN reader and spec disagree"
+
+
 def nontrivial(line):
     """writer: a well-formed UCI move text; reader: a text that at least starts like SAN (piece letter, file or O)"""
     f = line.split("\t")
